@@ -23,6 +23,7 @@ package main
 
 import (
 	"bytes"
+	"context"
 	"crypto/ed25519"
 	"crypto/sha512"
 	"encoding/hex"
@@ -45,6 +46,8 @@ import (
 	"github.com/oasisprotocol/oasis-core/go/common/crypto/signature"
 	"github.com/oasisprotocol/oasis-core/go/common/quantity"
 	consensus "github.com/oasisprotocol/oasis-core/go/consensus/api"
+	abciAPI "github.com/oasisprotocol/oasis-core/go/consensus/cometbft/api"
+	stakingState "github.com/oasisprotocol/oasis-core/go/consensus/cometbft/apps/staking/state"
 	"github.com/oasisprotocol/oasis-core/go/consensus/api/transaction"
 	genesis "github.com/oasisprotocol/oasis-core/go/genesis/api"
 	staking "github.com/oasisprotocol/oasis-core/go/staking/api"
@@ -101,6 +104,7 @@ type plan struct {
 	initNonce   map[int]uint64 // account index -> genesis nonce
 	blocks      [][]genTx
 	restart     []bool
+	abandoned   [][][]byte // per block: the transactions of a proposal that is executed but NOT decided
 	warm        bool // CheckTx every byte string of a block on both replicas before it is delivered
 }
 
@@ -162,6 +166,7 @@ type ref struct {
 	nonce map[string]uint64
 	bal   map[string]uint64
 	alw   map[string]map[string]uint64 // owner -> beneficiary -> allowance (no zero entries)
+	supply uint64                      // staking total supply (genesis, lowered by burns)
 	p     *plan
 }
 
@@ -243,11 +248,17 @@ func (r *ref) apply(a *absTx) (bool, bool) {
 		}
 		cur := r.alw[a.Addr][a.To]
 		nw := cur + amt
+		if nw < cur {
+			nw = math.MaxUint64 // saturate: certainly above the supply
+		}
 		if a.Method == 8 {
 			nw = 0
 			if cur > amt {
 				nw = cur - amt
 			}
+		}
+		if nw > r.supply {
+			return true, false // ErrAllowanceGreaterThanSupply
 		}
 		n := len(r.alw[a.Addr])
 		if cur == 0 && nw != 0 {
@@ -303,6 +314,8 @@ func (r *ref) apply(a *absTx) (bool, bool) {
 			return true, false
 		}
 		r.bal[a.To] += amt
+	} else {
+		r.supply -= amt // Burn
 	}
 	r.bal[a.Addr] -= amt
 	return true, true
@@ -856,6 +869,23 @@ func buildPlan(seed uint64, nblocks, ntx int, g *muxdrv.Genesis, p *plan) {
 	}
 	for b := 0; b < nblocks; b++ {
 		var blk []genTx
+		// a failed consensus round: a proposal that replicas execute (PrepareProposal on the
+		// proposer, ProcessProposal on the others) but that is never decided. Its transactions
+		// are valid in the state at the start of the block and are NOT applied to the reference;
+		// the decided block starts with the same signers' NEXT nonces, which must be rejected.
+		var ab [][]byte
+		if r.Chance(35) {
+			for j, na := 0, r.Range(1, 3); j < na; j++ {
+				s := signers[r.Intn(4)]
+				n0 := refNonce(s)
+				ab = append(ab, muxdrv.Sign(s.key, muxdrv.TxTransfer(n0, okFee(), attacker.addr, uint64(r.Range(100, 900)))))
+				t := genTx{Raw: muxdrv.Sign(s.key, muxdrv.TxTransfer(n0+1, okFee(), attacker.addr, uint64(r.Range(100, 900)))), Kind: "next-nonce-after-abandoned-round"}
+				a, _ := abstract(t.Raw, chain)
+				rf.apply(a)
+				blk = append(blk, t)
+			}
+		}
+		p.abandoned = append(p.abandoned, ab)
 		n := r.Range(ntx/2+1, ntx)
 		for len(blk) < n {
 			s := signers[r.Intn(len(signers))]
@@ -1060,6 +1090,7 @@ func buildPlan(seed uint64, nblocks, ntx int, g *muxdrv.Genesis, p *plan) {
 
 func newRef(g *muxdrv.Genesis, p *plan) *ref {
 	rf := &ref{nonce: map[string]uint64{}, bal: map[string]uint64{}, alw: map[string]map[string]uint64{}, p: p}
+	rf.supply, _ = qU64(&g.Doc.Staking.TotalSupply)
 	for addr, acc := range g.Doc.Staking.Ledger {
 		b, _ := qU64(&acc.General.Balance)
 		rf.bal[addr.String()] = b
@@ -1170,7 +1201,7 @@ func runHistory(seed uint64, nblocks, ntx, upto int, drop [][2]int) (out *runOut
 			}
 		}
 		if p.restart[b] {
-			if err := disk.Restart(nil); err != nil {
+			if _, err := dl("Restart", func() (bool, error) { return true, disk.Restart(nil) }); err != nil {
 				viol(b, "restart failed: "+err.Error(), nil)
 				return
 			}
@@ -1179,14 +1210,16 @@ func runHistory(seed uint64, nblocks, ntx, upto int, drop [][2]int) (out *runOut
 		// observables of the property; a verification cache would be warm afterwards)
 		for _, t := range gts {
 			for _, pc := range t.PreCheck {
-				_, _ = disk.CheckTx(pc, false)
-				_, _ = prop.CheckTx(pc, false)
+				pc := pc
+				_, _ = dl("CheckTx", func() (bool, error) { _, e := disk.CheckTx(pc, false); return true, e })
+				_, _ = dl("CheckTx", func() (bool, error) { _, e := prop.CheckTx(pc, false); return true, e })
 			}
 		}
 		if p.warm {
 			for _, raw := range raws {
-				_, _ = disk.CheckTx(raw, false)
-				_, _ = prop.CheckTx(raw, false)
+				raw := raw
+				_, _ = dl("CheckTx", func() (bool, error) { _, e := disk.CheckTx(raw, false); return true, e })
+				_, _ = dl("CheckTx", func() (bool, error) { _, e := prop.CheckTx(raw, false); return true, e })
 			}
 		}
 		// abstraction + tracked addresses
@@ -1241,6 +1274,7 @@ func runHistory(seed uint64, nblocks, ntx, upto int, drop [][2]int) (out *runOut
 			return m
 		}
 		pre := query(disk)
+		preSupply := totalSupply(disk, g)
 		var preAlw [][3]string
 		for _, a := range tl {
 			if acc, err := disk.Account(0, addrOf[a]); err == nil {
@@ -1264,7 +1298,21 @@ func runHistory(seed uint64, nblocks, ntx, upto int, drop [][2]int) (out *runOut
 			}
 		}
 		in := c.NewBlock(g.Validators[0].ConsAddr, muxdrv.VotesAll, nil)
-		list, err := prop.Propose(in, raws)
+		if ab := p.abandoned[b]; len(ab) > 0 {
+			// round 0: executed everywhere, decided nowhere
+			listA, err := dl("PrepareProposal (abandoned round)", func() ([][]byte, error) { return prop.Propose(in, ab) })
+			if err != nil {
+				viol(b, "PrepareProposal of the abandoned round: "+err.Error(), nil)
+				return
+			}
+			acc, err := dl("ProcessProposal (abandoned round)", func() (bool, error) { return disk.ProcessProposal(in, listA) })
+			if err != nil {
+				viol(b, "ProcessProposal of the abandoned round: "+err.Error(), nil)
+				return
+			}
+			out.stats = append(out.stats, fmt.Sprintf("abandoned-round:%d txs, accepted=%v", len(ab), acc))
+		}
+		list, err := dl("PrepareProposal", func() ([][]byte, error) { return prop.Propose(in, raws) })
 		if err != nil {
 			viol(b, "PrepareProposal: "+err.Error(), nil)
 			return
@@ -1273,12 +1321,17 @@ func runHistory(seed uint64, nblocks, ntx, upto int, drop [][2]int) (out *runOut
 			viol(b, fmt.Sprintf("PrepareProposal returned %d transactions for %d candidates", len(list), len(raws)), nil)
 			return
 		}
-		r1, err := prop.Process(in, list)
+		r1, err := dl("block execution (proposer)", func() (*muxdrv.BlockResult, error) { return prop.Process(in, list) })
 		if err != nil {
 			viol(b, "proposer block execution: "+err.Error(), nil)
 			return
 		}
-		r2, err := disk.Replay(in, list)
+		r2, err := dl("block execution (replica)", func() (*muxdrv.BlockResult, error) {
+			if len(p.abandoned[b]) > 0 {
+				return disk.Process(in, list) // ProcessProposal of the decided block, then delivery
+			}
+			return disk.Replay(in, list)
+		})
 		if err != nil {
 			viol(b, "replica block execution: "+err.Error(), nil)
 			return
@@ -1345,7 +1398,11 @@ func runHistory(seed uint64, nblocks, ntx, upto int, drop [][2]int) (out *runOut
 		for _, a := range tl {
 			want := [2]string{strconv.FormatUint(rf.nonce[a], 10), strconv.FormatUint(rf.bal[a], 10)}
 			if post[a] != want {
-				viol(b, fmt.Sprintf("account %s after block %d: implementation nonce/balance %v, reference %v (a transaction took effect that should not have, or did not although it should)", a, b, post[a], want), nil)
+				note := ""
+				if len(p.abandoned[b]) > 0 {
+					note = "; this height had a proposal that was executed (PrepareProposal / ProcessProposal) but never decided: only the transactions of the DECIDED block may take effect"
+				}
+				viol(b, fmt.Sprintf("account %s after block %d: implementation nonce/balance %v, reference %v (a transaction took effect that should not have, or did not although it should%s)", a, b, post[a], want, note), nil)
 			}
 			if postP[a] != post[a] {
 				viol(b, fmt.Sprintf("account %s: proposer %v and replica %v disagree", a, postP[a], post[a]), nil)
@@ -1355,7 +1412,7 @@ func runHistory(seed uint64, nblocks, ntx, upto int, drop [][2]int) (out *runOut
 			nontriv = true
 		}
 		// ---- K: the case for the Coq model
-		coq := coqBlock(p, tl, pre, post, abs, classes, idOf, preAlw)
+		coq := coqBlock(p, tl, pre, post, abs, classes, idOf, preAlw, preSupply)
 		d := Desc{Mode: "deliver", Seed: seed, Blocks: nblocks, Txs: ntx, Block: b, Drop: drop}
 		for i, t := range gts {
 			d.Kinds = append(d.Kinds, t.Kind+"/"+classes[i])
@@ -1405,9 +1462,52 @@ func runHistory(seed uint64, nblocks, ntx, upto int, drop [][2]int) (out *runOut
 	return out
 }
 
+// totalSupply reads the staking total supply of the latest committed state (the genesis
+// value before the first block).
+func totalSupply(rp *muxdrv.Replica, g *muxdrv.Genesis) string {
+	ist, err := abciAPI.NewImmutableStateAt(context.Background(), rp.Srv.State(), 0)
+	if err != nil {
+		return g.Doc.Staking.TotalSupply.String()
+	}
+	defer ist.Close()
+	ts, err := stakingState.NewImmutableState(ist).TotalSupply(context.Background())
+	if err != nil {
+		panic(err)
+	}
+	return ts.String()
+}
+
+// ---- deadlines: every call into the implementation gets 60 s; a call that does not
+// return is reported as a violation and the run ends (the stuck goroutine may hold the
+// ABCI mutex, so nothing more can be done in this process).
+var onHang func(where string)
+
+func dl[T any](where string, f func() (T, error)) (T, error) {
+	type res struct {
+		v   T
+		err error
+	}
+	ch := make(chan res, 1)
+	go func() {
+		v, err := f()
+		ch <- res{v, err}
+	}()
+	select {
+	case r := <-ch:
+		return r.v, r.err
+	case <-time.After(60 * time.Second):
+		if onHang != nil {
+			onHang(where)
+		}
+		var z T
+		return z, fmt.Errorf("%s did not return within 60 s", where)
+	}
+}
+
 // coqBlock renders one block as a case of Verif.Auth.Corr.run_block.
-func coqBlock(p *plan, tl []string, pre, post map[string][2]string, abs []*absTx, classes []string, idOf func(string) int, preAlw [][3]string) string {
+func coqBlock(p *plan, tl []string, pre, post map[string][2]string, abs []*absTx, classes []string, idOf func(string) int, preAlw [][3]string, supply string) string {
 	var idl, pn, pb, qn, qb, ks []string
+	pb = append(pb, fmt.Sprintf("(%d, %s)", uint64(1)<<41, supply)) // staking total supply before the block
 	// allowances of the tracked accounts before the block: key 2^40 + owner*2^20 + beneficiary
 	for _, e := range preAlw {
 		pb = append(pb, fmt.Sprintf("(%d, %s)", (1<<40)+idOf(e[0])*(1<<20)+idOf(e[1]), e[2]))
@@ -1550,12 +1650,12 @@ func sweepBlock(d SweepDesc, sum *coqout.Summary) (coq string, viols []map[strin
 	}
 	c := muxdrv.NewChain(g)
 	in := c.NewBlock(g.Validators[0].ConsAddr, muxdrv.VotesAll, nil)
-	list, err := prop.Propose(in, raws)
+	list, err := dl("PrepareProposal", func() ([][]byte, error) { return prop.Propose(in, raws) })
 	if err != nil || len(list) != len(raws)+1 {
 		viol(fmt.Sprintf("PrepareProposal failed: %v (%d of %d)", err, len(list), len(raws)))
 		return
 	}
-	res, err := prop.Process(in, list)
+	res, err := dl("block execution", func() (*muxdrv.BlockResult, error) { return prop.Process(in, list) })
 	if err != nil {
 		viol("block execution: " + err.Error())
 		return
@@ -1600,7 +1700,7 @@ func sweepBlock(d SweepDesc, sum *coqout.Summary) (coq string, viols []map[strin
 			viol(fmt.Sprintf("account %s after the block: implementation nonce/balance %v, reference %v", a, post[a], want))
 		}
 	}
-	coq = coqBlock(p, tl, pre, post, abs, classes, idOf, nil)
+	coq = coqBlock(p, tl, pre, post, abs, classes, idOf, nil, g.Doc.Staking.TotalSupply.String())
 	return
 }
 
@@ -1649,6 +1749,13 @@ func sweepMain(seed uint64, out string, stride, batch int, replay *SweepDesc) {
 	}
 	nf := 0
 	for _, d := range descs {
+		d := d
+		onHang = func(where string) {
+			sum.Violations = append(sum.Violations, map[string]any{"what": where + " did not return within 60 s: the implementation hangs on this block", "case": d})
+			w.Close()
+			sum.Write(out)
+			os.Exit(0)
+		}
 		coq, viols, finds := sweepBlock(d, sum)
 		sum.Evaluations++
 		sum.DistinctNontrivial++
@@ -2099,7 +2206,7 @@ func main() {
 	}
 	hdr := "From Verif Require Import Lib.Base Auth.Model Auth.Corr Gen.SigContexts Gen.SigOptions.\n"
 	w := coqout.NewWriter(*out, hdr, "run_block chain_separator tx_context allow_small_order_A allow_small_order_R", "kout_eqb", 12)
-	sum := coqout.NewSummary("one case = one block of a generated history (pre nonces/balances of the tracked accounts, every byte string of the block abstracted by the harness, observed result classes and post nonces/balances); histories of -blocks blocks over 9 signers (6 funded, 1 nearly empty, 2 unfunded; genesis nonces incl. 2^64-1-k and 2^63-1) with parameters MinTransactBalance {0,100}, MinGasPrice {0,2}, MaxTxSize {32768,420} and restarts of the on-disk replica; non-trivial = at least two transactions of the block passed authentication and at least one did not; distinct = distinct (seed, block)")
+	sum := coqout.NewSummary("one case = one block of a generated history (pre nonces/balances of the tracked accounts, every byte string of the block abstracted by the harness, observed result classes and post nonces/balances); histories of -blocks blocks over 9 signers (6 funded, 1 nearly empty, 2 unfunded; genesis nonces incl. 2^64-1-k and 2^63-1) with parameters MinTransactBalance {0,100}, MinGasPrice {0,2}, MaxTxSize {32768,420} restarts of the on-disk replica, and failed consensus rounds (a proposal executed by proposer and replica but not decided, followed by the decided block at the same height); non-trivial = at least two transactions of the block passed authentication and at least one did not; distinct = distinct (seed, block)")
 	type job struct {
 		seed          uint64
 		blocks, txs   int
@@ -2118,6 +2225,15 @@ func main() {
 		}
 	}
 	for _, j := range jobs {
+		j := j
+		onHang = func(where string) {
+			sum.Violations = append(sum.Violations, map[string]any{
+				"what": where + " did not return within 60 s: the implementation hangs (or deadlocks) on this history",
+				"case": Desc{Mode: "deliver", Seed: j.seed, Blocks: j.blocks, Txs: j.txs, Block: j.upto, Drop: j.drop}})
+			w.Close()
+			sum.Write(*out)
+			os.Exit(0)
+		}
 		o := runHistory(j.seed, j.blocks, j.txs, j.upto, j.drop)
 		for _, b := range o.blocks {
 			if rd != nil && b.desc.Block != rd.Block {
